@@ -1395,6 +1395,16 @@ def digitize(x, edges, right=False):
     return SArr(xa.shape_e, lambda *jx: D(*jx), 'i')
 
 
+def searchsorted(a, v, side='left', sorter=None):
+    """ASSUMED numpy contract for increasing a: searchsorted(a, v, side='left') = number of entries of a below v = digitize(v, a, right=True);
+    side='right' = number of entries at or below v = digitize(v, a)"""
+    if sorter is not None or side not in ('left', 'right'):
+        raise Unsupported('searchsorted options')
+    if not isinstance(v, SArr):
+        raise Unsupported('searchsorted of a scalar')
+    return digitize(v, a, right=(side == 'left'))
+
+
 def unique(a, return_counts=False):
     """only the shapes are modelled (values unconstrained): enough where the result is not used"""
     c = C()
